@@ -11,6 +11,7 @@ import Comet.Driver.BM25
 import Comet.Driver.HSearch
 import Comet.Driver.Vec5
 import Comet.Driver.Conc
+import Comet.Driver.Conc2
 import Comet.Driver.Store
 import Comet.Driver.Post
 import Comet.Driver.Codec
@@ -22,6 +23,9 @@ def handlers : List Handler := [
   MetaStream.handler,
   ConcStream.handler,
   SchedStream.handler,
+  MaggStream.handler,
+  ImageStream.handler,
+  CloseRaceStream.handler,
   Vec5Stream.handler,
   HNSWStream.handler,
   HSearchStream.handler,
